@@ -6,6 +6,7 @@
 #define _GNU_SOURCE
 #include "sched.h"
 #include <stdlib.h>
+#include <link.h>
 #include <sys/mman.h>
 #include <ucontext.h>
 #include <unistd.h>
@@ -22,6 +23,8 @@ typedef struct {
   int team, tnum, level;
   int wait_task, wait_mutex;
   int wait_team;
+  char *tls;            /* this task's copy of the program's thread-local block while it is not running */
+  void *tsd[32];        /* pthread_setspecific values */
   unsigned ws_seen, single_seen; /* work-sharing / single constructs this thread has encountered in its current team */
   int ws_cur;                    /* slot of the work-share it is in */
   int prio;
@@ -47,7 +50,8 @@ typedef struct { void *key; int owner; uint32_t vc[SCHED_MAXTASK]; int used; } m
 
 static task_t tasks[SCHED_MAXTASK];
 static team_t teams[SCHED_MAXTASK];
-static mutex_t mutexes[16];
+#define NMUTEX 96
+static mutex_t mutexes[NMUTEX];
 
 static int cur;
 static int enabled;
@@ -168,9 +172,36 @@ static inline void mon_granule(uintptr_t a, int write, uintptr_t pc) {
     c->w = me; c->wpc = (uint32_t)pc;
   }
 }
+/* Thread-local storage: all simulated threads share one OS thread, hence one TLS block.  Each task gets its own copy of the
+ * program's PT_TLS segment, swapped in and out at every context switch (a new task starts from the initialisation image, as a
+ * new thread does), and accesses inside the block are not shared-memory accesses for the monitor.  Without this a library that
+ * keeps scratch data in `__thread` / `threadprivate` variables - a correct way to be thread-safe - would be reported. */
+static char *tls_base;
+static size_t tls_size, tls_filesz;
+static const char *tls_image;
+static int tls_probed;
+static int tls_cb(struct dl_phdr_info *info, size_t sz, void *d) {
+  (void)sz; (void)d;
+  if (info->dlpi_name && info->dlpi_name[0]) return 0; /* the main program comes first and has an empty name */
+  for (int i = 0; i < info->dlpi_phnum; i++)
+    if (info->dlpi_phdr[i].p_type == PT_TLS) {
+      tls_size = info->dlpi_phdr[i].p_memsz; tls_filesz = info->dlpi_phdr[i].p_filesz;
+      tls_image = (const char *)(info->dlpi_addr + info->dlpi_phdr[i].p_vaddr);
+      tls_base = (char *)info->dlpi_tls_data;
+    }
+  return 1;
+}
+static void tls_probe(void) { if (!tls_probed) { tls_probed = 1; dl_iterate_phdr(tls_cb, NULL); if (!tls_base) tls_size = 0; } }
+static void tls_fresh(int t) {
+  if (!tls_size) return;
+  if (!tasks[t].tls) tasks[t].tls = (char *)malloc(tls_size);
+  memcpy(tasks[t].tls, tls_image, tls_filesz);
+  memset(tasks[t].tls + tls_filesz, 0, tls_size - tls_filesz);
+}
 static inline void mon_access(void *addr, size_t n, int write, uintptr_t pc) {
   sched_stats.accesses++;
   if (!cfg.monitor) return;
+  if (tls_size && (uintptr_t)addr - (uintptr_t)tls_base < tls_size) { sched_stats.tls_accesses++; return; }
   uintptr_t a = (uintptr_t)addr & ~(uintptr_t)3, e = (uintptr_t)addr + n;
   for (; a < e; a += 4) mon_granule(a, write, pc);
 }
@@ -190,6 +221,11 @@ static void switch_to(int t, int cls) {
   int code = cls * 1024 + t;
   sched_stats.interleaving_hash = fnv1a(&code, sizeof code, sched_stats.interleaving_hash ? sched_stats.interleaving_hash : FNV0);
   cur = t;
+  if (tls_size) { /* the thread-local block follows the task */
+    if (!tasks[prev].tls) tasks[prev].tls = (char *)malloc(tls_size);
+    memcpy(tasks[prev].tls, tls_base, tls_size);
+    if (tasks[t].tls) memcpy(tls_base, tasks[t].tls, tls_size);
+  }
   swapcontext(&tasks[prev].ctx, &tasks[t].ctx);
 }
 static int pick_runnable(int exclude) { /* seeded choice among runnable tasks other than `exclude`; -1 if none */
@@ -277,6 +313,8 @@ static int new_task(void (*fn)(void *), void *arg, int team, int tnum, int level
   makecontext(&t->ctx, tramp, 0);
   t->fn = fn; t->arg = arg; t->team = team; t->tnum = tnum; t->level = level;
   t->ws_seen = 0; t->single_seen = 0; t->ws_cur = 0;
+  tls_fresh(id);
+  memset(t->tsd, 0, sizeof t->tsd);
   t->state = T_RUNNABLE;
   /* fork edge: the child starts with everything the parent has done so far */
   uint32_t own = t->vc[id];
@@ -325,10 +363,11 @@ void sched_reset(const sched_cfg_t *c) {
   for (int i = 0; i < SCHED_MAXTASK; i++) { tasks[i].state = T_FREE; tasks[i].team = -1; tasks[i].level = 0; }
   memset(teams, 0, sizeof teams);
   memset(mutexes, 0, sizeof mutexes);
-  for (int i = 0; i < 16; i++) mutexes[i].owner = -1;
+  for (int i = 0; i < NMUTEX; i++) mutexes[i].owner = -1;
   cur = 0;
   tasks[0].state = T_RUNNABLE;
   heap_on_alloc = on_alloc; heap_on_free = on_free; heap_on_call = on_heap_call;
+  tls_probe();
 }
 static int dec_cmp(const void *a, const void *b) { const dec_t *x = (const dec_t *)a, *y = (const dec_t *)b; return x->ev < y->ev ? -1 : x->ev > y->ev; }
 void sched_add_replay_point(uint64_t e, int task) {
@@ -573,8 +612,8 @@ double omp_get_wtime(void) { return 1e-9 * (double)ev; } /* simulated time: one 
 double omp_get_wtick(void) { return 1e-9; }
 
 static mutex_t *mutex_for(void *key) {
-  for (int i = 0; i < 16; i++) if (mutexes[i].used && mutexes[i].key == key) return &mutexes[i];
-  for (int i = 0; i < 16; i++) if (!mutexes[i].used) { mutexes[i].used = 1; mutexes[i].key = key; mutexes[i].owner = -1; memset(mutexes[i].vc, 0, sizeof mutexes[i].vc); return &mutexes[i]; }
+  for (int i = 0; i < NMUTEX; i++) if (mutexes[i].used && mutexes[i].key == key) return &mutexes[i];
+  for (int i = 0; i < NMUTEX; i++) if (!mutexes[i].used) { mutexes[i].used = 1; mutexes[i].key = key; mutexes[i].owner = -1; memset(mutexes[i].vc, 0, sizeof mutexes[i].vc); return &mutexes[i]; }
   fatal("out of mutex slots");
   return NULL;
 }
@@ -616,6 +655,40 @@ void omp_destroy_lock(void *l) { (void)l; }
 void omp_set_lock(void *l) { GOMP_critical_name_start((void **)l); }
 void omp_unset_lock(void *l) { GOMP_critical_name_end((void **)l); }
 int omp_test_lock(void *l) { if (!enabled) return 1; mutex_t *m = mutex_for(l); if (m->owner != -1) return 0; GOMP_critical_name_start((void **)l); return 1; }
+
+/* ---- pthread primitives of the library objects (`mon` flavour seams): a real mutex would block the one OS thread for good ---- */
+static void mutex_drop(void *key) { for (int i = 0; i < NMUTEX; i++) if (mutexes[i].used && mutexes[i].key == key && mutexes[i].owner == -1) mutexes[i].used = 0; }
+int m4sim_pthread_mutex_init(void *m, const void *attr) { (void)attr; if (m) memset(m, 0, 40); return 0; }
+int m4sim_pthread_mutex_destroy(void *m) { mutex_drop(m); return 0; }
+int m4sim_pthread_mutex_lock(void *m) { GOMP_critical_name_start((void **)m); return 0; }
+int m4sim_pthread_mutex_unlock(void *m) { GOMP_critical_name_end((void **)m); return 0; }
+int m4sim_pthread_mutex_trylock(void *m) { return omp_test_lock(m) ? 0 : 16 /* EBUSY */; }
+int m4sim_pthread_spin_init(void *m, int sh) { (void)sh; if (m) *(volatile int *)m = 0; return 0; }
+int m4sim_pthread_spin_destroy(void *m) { mutex_drop(m); return 0; }
+int m4sim_pthread_spin_lock(void *m) { GOMP_critical_name_start((void **)m); return 0; }
+int m4sim_pthread_spin_unlock(void *m) { GOMP_critical_name_end((void **)m); return 0; }
+int m4sim_pthread_spin_trylock(void *m) { return omp_test_lock(m) ? 0 : 16; }
+int m4sim_pthread_rwlock_init(void *m, const void *attr) { (void)attr; if (m) memset(m, 0, 56); return 0; }
+int m4sim_pthread_rwlock_destroy(void *m) { mutex_drop(m); return 0; }
+int m4sim_pthread_rwlock_rdlock(void *m) { GOMP_critical_name_start((void **)m); return 0; } /* readers exclude each other too: fewer schedules, never a false conflict */
+int m4sim_pthread_rwlock_wrlock(void *m) { GOMP_critical_name_start((void **)m); return 0; }
+int m4sim_pthread_rwlock_tryrdlock(void *m) { return omp_test_lock(m) ? 0 : 16; }
+int m4sim_pthread_rwlock_trywrlock(void *m) { return omp_test_lock(m) ? 0 : 16; }
+int m4sim_pthread_rwlock_unlock(void *m) { GOMP_critical_name_end((void **)m); return 0; }
+int m4sim_pthread_once(int *once, void (*fn)(void)) {
+  if (!enabled) { if (!*once) { *once = 2; fn(); } return 0; }
+  GOMP_critical_name_start((void **)once);
+  if (!*once) { *once = 2; fn(); }
+  GOMP_critical_name_end((void **)once);
+  return 0;
+}
+unsigned long m4sim_pthread_self(void) { return 0x7000000000UL + 4096UL * (unsigned long)(enabled ? cur : 0); }
+int m4sim_pthread_equal(unsigned long a, unsigned long b) { return a == b; }
+static unsigned tsd_next = 1;
+int m4sim_pthread_key_create(unsigned *key, void (*dtor)(void *)) { (void)dtor; if (tsd_next >= 32) return 11; *key = tsd_next++; return 0; }
+int m4sim_pthread_key_delete(unsigned key) { (void)key; return 0; }
+void *m4sim_pthread_getspecific(unsigned key) { return key < 32 ? tasks[enabled ? cur : 0].tsd[key] : NULL; }
+int m4sim_pthread_setspecific(unsigned key, const void *v) { if (key >= 32) return 22; tasks[enabled ? cur : 0].tsd[key] = (void *)v; return 0; }
 
 /* ================= compiler callbacks (-fsanitize=thread, no runtime) ================= */
 #define RA ((uintptr_t)__builtin_return_address(0))
